@@ -231,6 +231,7 @@ type world struct {
 	coord   *config.Coordinator
 	calls   int
 	applied string
+	lastCfg *config.Config // what the subscribers were handed last: the configuration in force
 	failSub bool
 }
 
@@ -241,6 +242,7 @@ func (w *world) reload(kind string, seed uint64) string {
 		w.coord.Subscribe(func(c *config.Config) error {
 			w.calls++
 			w.applied = shortHash(c.String())
+			w.lastCfg = c
 			return nil
 		}, func(c *config.Config) error {
 			if w.failSub {
@@ -296,7 +298,12 @@ func (w *world) reload(kind string, seed uint64) string {
 	if a == "" {
 		a = "-"
 	}
-	return fmt.Sprintf("%s %d %s %s %s", e, w.calls-calls0, ptr, a, file)
+	// the configuration in force, as text, after this reload: a rejected reload must not have touched it
+	running := "-"
+	if w.lastCfg != nil {
+		running = shortHash(w.lastCfg.String())
+	}
+	return fmt.Sprintf("%s %d %s %s %s %s", e, w.calls-calls0, ptr, a, file, running)
 }
 
 // coordConfigPtr reads the identity of the coordinator's current configuration (unexported field; identity only).
